@@ -158,6 +158,19 @@ def make_defs(tier: str, seed: int):
                     feats[f] = p
                 did += 1
                 defs.append(Def(did, kind, Config(feats), holes))
+    # feature sets which pull in helper items, deterministically, for every non-private enum visibility
+    pullers = [
+        {"iter": {"mode": "next_and_back"}}, {"iter": {"mode": "table"}}, {"iter": {"mode": "table_inline"}},
+        {"iter": {"mode": "next_and_back"}, "range": {}}, {"iter": {"mode": "table"}, "range": {}}, {"iter": {}, "range": {}},
+        {"try_from": {}}, {"TryFrom": {}}, {"next": {}}, {"next_back": {}}, {"from_str": {"mode": "table"}},
+        {"FromStr": {"mode": "table"}}, {"as_str": {"mode": "table"}}, {"Debug": {}}, {"Display": {}}, {"IntoStr": {}},
+        {"names": {}}, {"iter": {}}, {"from_str": {}, "FromStr": {}, "as_str": {}},
+    ]
+    for kind in (["pub", "crate"] if tier == "quick" else ["pub", "crate", "super", "in"]):
+        for pi, feats in enumerate(pullers):
+            for holes in ((pi + len(kind)) % 2 == 0,) if tier == "quick" else (False, True):
+                did += 1
+                defs.append(Def(did, kind, Config({k: dict(v) for k, v in feats.items()}), holes))
     # every vis value for every item-producing feature at least once, under a pub enum
     for f in FN_ITEMS + CONST_ITEMS:
         for v in ["", "pub(crate)", "pub"]:
